@@ -24,6 +24,8 @@ type Unit struct {
 	Unsupported []string
 	Props    []string
 	Loops    int
+	ReachCond string // normal-return condition; facts ∧ ReachCond must be satisfiable (vacuity guard)
+	Reach    string // sat | unknown | unsat(=vacuous) | n/a
 }
 
 func (p *Program) prelude(vc *VC, pkgs map[string]bool) {
@@ -105,6 +107,7 @@ func (p *Program) GenFunc(key string, opts GenOpts) *Unit {
 			continue
 		}
 		u.VC = vc
+		u.ReachCond = fr.reachCond
 		u.Unsupported = dedup(fr.unsupported)
 		u.Loops = len(fr.loops)
 	}
@@ -224,6 +227,7 @@ func (p *Program) genOnce(fn *ssa.Function, key string, opts GenOpts, pre map[st
 	fr.old = st.Clone()
 	entry := st.Clone()
 	res := fr.exec(st)
+	fr.reachCond = res.cond
 	// postconditions
 	if fc != nil && !opts.LockOnly {
 		_, rnames := fr.contractNames(fc, fn, fn.Signature)
@@ -234,12 +238,14 @@ func (p *Program) genOnce(fn *ssa.Function, key string, opts GenOpts, pre map[st
 		bindResults(pvars, rnames, res.results)
 		penv := &Env{vc: vc, st: res.st, old: entry, vars: pvars, pkg: pkg}
 		for _, c := range fc.Ensures {
-			t, e := penv.EvalBool(c.E)
-			if e != nil {
-				fr.specError(c, e)
-				continue
+			for _, part := range splitConj(c.E) {
+				t, e := penv.EvalBool(part)
+				if e != nil {
+					fr.specError(c, e)
+					continue
+				}
+				vc.oblige("post", key, "post", res.cond, t, fr.pos(fn.Pos()), part.String())
 			}
-			vc.oblige("post", key, "post", res.cond, t, fr.pos(fn.Pos()), c.Text)
 		}
 	}
 	if opts.LockOnly && fr.lockAddr != "" {
@@ -283,4 +289,21 @@ func (p *Program) GenLemma(a *AxiomDecl) *Unit {
 		u.Err = fmt.Errorf("%s:%d: %v", a.File, a.Line, err)
 	}
 	return u
+}
+
+// splitConj splits top-level conjunctions (also under let) into separate goals.
+func splitConj(e Expr) []Expr {
+	switch x := e.(type) {
+	case *EBin:
+		if x.Op == "&&" {
+			return append(splitConj(x.X), splitConj(x.Y)...)
+		}
+	case *ELet:
+		var out []Expr
+		for _, b := range splitConj(x.Body) {
+			out = append(out, &ELet{x.Name, x.X, b})
+		}
+		return out
+	}
+	return []Expr{e}
 }
